@@ -520,6 +520,10 @@ func runC11(ch *Choices, cfg *RunCfg) (o *Outcome) {
 	setMapOrder(ch.Salt("mapsalt"))
 	pair := ch.Intn(2, "inst.pair") == 1
 	tm, nm := copyMaps()
+	if ch.Intn(4, "maps.javanames") == 1 {
+		tm, nm, _ = VariantMaps(ch)
+		o.Probes["caller's maps with Java-style list / class names"]++
+	}
 	switch ch.Pick([]int{70, 0, 15, 15}, "tm.variant") {
 	case 2:
 		tm, _ = typeMapVariant(ch, 2)
